@@ -603,6 +603,26 @@ TEXTS = {
 }
 
 
+FILESETS = {
+ "self_include": {"main.yml": "- include_file: main.yml\n- object: A\n"},
+ "two_cycle": {"main.yml": "- include_file: b.yml\n- object: A\n", "b.yml": "- include_file: main.yml\n- object: B\n"},
+ "chain3": {"main.yml": "- include_file: b.yml\n- object: A\n  include: m\n", "b.yml": "- include_file: sub/c.yml\n- object: B\n",
+            "sub/c.yml": "- macro: m\n  fields:\n    x: 1\n- option: o\n  default: 1\n"},
+ "diamond": {"main.yml": "- include_file: b.yml\n- include_file: c.yml\n- object: A\n", "b.yml": "- include_file: d.yml\n",
+             "c.yml": "- include_file: d.yml\n", "d.yml": "- object: D\n"},
+ "included_dir": {"main.yml": "- include_file: sub\n- object: A\n", "sub/x.yml": "- object: X\n"},
+ "included_control_char": {"main.yml": "- include_file: b.yml\n- object: A\n", "b.yml": "- object: B\x01\n"},
+ "included_bad_date": {"main.yml": "- include_file: b.yml\n- object: A\n", "b.yml": "- object: B\n  fields:\n    x: 2020-13-45\n"},
+ "included_bad_yaml": {"main.yml": "- include_file: b.yml\n- object: A\n", "b.yml": "- object: 'B\n"},
+ "included_not_list": {"main.yml": "- include_file: b.yml\n- object: A\n", "b.yml": "a: b\n"},
+ "included_missing": {"main.yml": "- include_file: nope.yml\n- object: A\n"},
+ "included_version_overridden": {"main.yml": "- include_file: b.yml\n- object: A\n", "b.yml": "- snowfakery_version: 3\n"},
+ "included_bad_statement": {"main.yml": "- include_file: b.yml\n- object: A\n", "b.yml": "- object: B\n  fields:\n    '': x\n"},
+ "included_cyclic_alias": {"main.yml": "- include_file: b.yml\n- object: A\n", "b.yml": "- object: B\n  fields: &f\n    x: *f\n"},
+ "include_extra_key": {"main.yml": "- include_file: b.yml\n  nickname: x\n- object: A\n", "b.yml": "- object: B\n"},
+}
+
+
 # =============================================================================== fault cases
 # skeleton positions for an injected fault; see _fault_recipe.  `exc` is a Python exception name.
 FAULT_SITES = ["field_call", "field_attr", "var_call", "var_attr", "count_call", "count_attr", "count_conv_simple",
@@ -650,7 +670,7 @@ def _fault_recipe(site, dep, exc):
     elif site == "foreach_noniter":
         t["for_each"] = {"var": "r", "value": {"Boom.text": "abc"}}
     elif site == "write_row":
-        pass
+        t["count"] = 2
     else:
         raise ValueError(site)
     if site.startswith("var_"):
@@ -685,12 +705,16 @@ def generate(rng, tier):
     # texts and boundary documents always
     for name, text in TEXTS.items():
         cases.append({"kind": "text", "text": text, "label": "text:" + name})
+    for name, fs in FILESETS.items():
+        cases.append({"kind": "files", "files": fs, "main": "main.yml", "label": "files:" + name})
     for name in sd:
         cases.append({"kind": "edit", "seed": name, "edit": None})      # the unchanged seed
     for site in FAULT_SITES:
         for dep in FAULT_DEPTHS:
             for exc in (FAULT_EXCS if tier == "thorough" else ["KeyError", "ValueError", "OverflowError", "DGE", "TypeError"]):
                 if _fault_recipe(site, dep, exc) is not None:
+                    if exc == "StopIteration" and site.endswith("_simple"):
+                        continue        # Jinja's generator-based rendering absorbs StopIteration
                     if site in ("count_conv_simple", "count_conv_struct", "count_conv_inf", "foreach_noniter",
                                 "field_attr", "var_attr", "count_attr") and exc != "KeyError":
                         continue
@@ -705,10 +729,16 @@ def generate(rng, tier):
         descs = {n: edit_descriptors(sd[n]["tree"]) for n in names}
         builtin = [n for n in names if n.startswith("b_")]
         files = [n for n in names if not n.startswith("b_")]
+        byop = {n: {} for n in names}
+        for n in names:
+            for d in descs[n]:
+                byop[n].setdefault(d[1], []).append(d)
         for i in range(budget):
             pool = builtin if (i % 3 != 2 or not files) else files
             n = rng.choice(pool)
-            cases.append({"kind": "edit", "seed": n, "edit": rng.choice(descs[n])})
+            # half of the sample uniform over edits (mostly replacements / renames), half uniform over operators
+            d = rng.choice(descs[n]) if i % 2 == 0 else rng.choice(byop[n][rng.choice(sorted(byop[n]))])
+            cases.append({"kind": "edit", "seed": n, "edit": d})
     else:
         budget = 75000
         used = 0
@@ -739,6 +769,8 @@ def materialise(case):
         return dump(t), s["base"]
     if k == "fault":
         return yaml.safe_dump(_fault_recipe(case["site"], case["depth"], case["exc"]), sort_keys=False), None
+    if k == "files":
+        return case["files"][case["main"]], None       # run_impl writes the files and supplies the base
     raise ValueError(k)
 
 
@@ -854,8 +886,31 @@ def run_impl(case):
     text, base = materialise(case)
     if text is None:
         return {"skip": "seed unavailable"}
+    tmpdir = None
+    if case["kind"] == "files":
+        import tempfile
+        tmpdir = tempfile.mkdtemp(prefix="sfv.c20.", dir="/var/tmp")
+        for name, content in case["files"].items():
+            fp = Path(tmpdir) / name
+            fp.parent.mkdir(parents=True, exist_ok=True)
+            fp.write_text(content)
+        base = str(Path(tmpdir) / case["main"])
+    try:
+        return _run_text(case, text, base)
+    finally:
+        if tmpdir:
+            import shutil
+            shutil.rmtree(tmpdir, ignore_errors=True)
+
+
+def _run_text(case, text, base):
+    from snowfakery.data_generator import generate as sf_generate
+    from snowfakery.output_streams import OutputStream
+    from snowfakery.data_gen_exceptions import DataGenError
+    from snowfakery import data_generator_runtime as rt
     os.chdir(REPO)
     random.seed(0)
+    sys.unraisablehook = lambda *a, **k: None       # example plugins' __del__ noise
     state = {"rows": 0, "started": False}
     fault = case if case["kind"] == "fault" else None
 
@@ -886,7 +941,7 @@ def run_impl(case):
         interp.execute = execute
     stream = _NamedIO(text)
     if base:
-        stream.name = str(REPO / base)
+        stream.name = str(REPO / base)            # an absolute base stays as it is
     obs = {}
     import contextlib
     sink = io.StringIO()
@@ -933,6 +988,479 @@ def run_impl(case):
     return obs
 
 
+# =============================================================================== model side
+def cs(s):
+    if all(32 <= ord(ch) <= 126 for ch in s):
+        return C.cstr(s)
+    return "(sbytes " + C.clist(C.cz(b) for b in s.encode("utf-8")) + ")"
+
+
+_UWS = re.compile("[\x85\xa0\u1680\u2000-\u200a\u2028\u2029\u202f\u205f\u3000]")
+
+
+def _strings(t):
+    if t[0] == "s":
+        yield t[1]
+    elif t[0] in "el":
+        for x in t[1]:
+            yield from _strings(x)
+    elif t[0] == "m":
+        for a, b in t[1]:
+            yield from _strings(a)
+            yield from _strings(b)
+
+
+def cy(t):
+    k = t[0]
+    if k == "n":
+        return "YNull"
+    if k == "b":
+        return f"(YBool {C.cbool(t[1])})"
+    if k == "i":
+        return f"(YInt {C.cz(t[1])})"
+    if k == "f":
+        f = float(t[1])
+        if math.isnan(f):
+            return "(YFloat FlNan)"
+        if f == 0:
+            return "(YFloat FlZero)"
+        if math.isinf(f) or f != int(f) or abs(f) >= 2 ** 53:
+            return "(YFloat FlOther)"
+        return f"(YFloat (FlInt {C.cz(int(f))}))"
+    if k == "s":
+        return f"(YStr {cs(t[1])})"
+    if k == "d":
+        return "YDate"
+    if k == "t":
+        return "YDateTime"
+    if k == "y":
+        return f"(YBytes {C.cbool(len(t[1]) > 0)})"
+    if k == "e":
+        return f"(YSet {C.cbool(len(t[1]) > 0)})"
+    if k == "l":
+        return "(YSeq " + C.clist(cy(x) for x in t[1]) + ")"
+    if k == "m":
+        return "(YMap " + C.clist(C.cpair(cy(a), cy(b)) for a, b in t[1] if a != ["s", "__line__"]) + ")"
+    raise ValueError(t)
+
+
+YAML_SITE = "parse_recipe_yaml.py:yaml_safe_load_with_line_numbers"
+
+
+def _cloaderr(how):
+    if how == "marked":
+        return "LMarked"
+    if how == "unmarked":
+        return "LUnmarked"
+    return f"(LExc {cs(how[4:] + ':' + YAML_SITE)})"
+
+
+def _cenv(env):
+    fs = []
+    for f in env["files"]:
+        kind = f[2]
+        if kind == "missing":
+            e = "FMissing"
+        elif kind == "dir":
+            e = "FDir"
+        elif kind.startswith("bad:"):
+            if kind == "bad:cyclic":
+                return None
+            e = f"(FBad {_cloaderr(kind[4:])})"
+        else:
+            if any(_UWS.search(s) for s in _strings(f[4])):
+                return None
+            e = f"(FDoc {cs(f[3])} {cy(f[4])})"
+        fs.append(f"(({cs(f[0])}, {cs(f[1])}), {e})")
+    ps = []
+    for name, r in env["plugins"].items():
+        if r.startswith("crash:"):
+            v = f"(PCrash {cs(r[6:])})"
+        else:
+            v = {"missing": "PMissing", "notplugin": "PNotPlugin", "faker": "PFaker", "plugin": "PPlugin",
+                 "parser": "PParser"}[r]
+        ps.append(f"({cs(name)}, {v})")
+    return f"(mkEnv {C.clist(fs)} {C.clist(ps)})"
+
+
+def expected_static(obs):
+    """the implementation's verdict up to the start of execution, in the model's vocabulary"""
+    if obs.get("phase") is None:
+        return None
+    if obs["outcome"] == "accept" or obs["phase"] == "run":
+        return "OAccept"
+    if obs["outcome"] == "DGE":
+        return "OReject"
+    if obs["outcome"] == "RecursionError":
+        return '(OCrash "RecursionError")'
+    return f"(OCrash {cs(obs['outcome'] + ':' + obs.get('where', '?'))})"
+
+
+# (site, depth) -> (path, leaf, raised exception) of the wrapper model
+_DEPTH_STEPS = {"top": [], "friend": ["STmplFriend"], "nested": ["STmplField", "SNested"],
+                "var_template": ["SVarExpr", "SNested"], "friend_of_friend": ["STmplFriend", "STmplFriend"]}
+_VAR_DEPTH = {"top": [], "friend": ["STmplFriend"], "friend_of_friend": ["STmplFriend", "STmplFriend"]}
+
+
+def fault_path(case):
+    site, dep, exc = case["site"], case["depth"], case["exc"]
+    if site.startswith("var_"):
+        steps = _VAR_DEPTH[dep] + ["SVarExpr"]
+        leaf, e = {"var_call": ("LFunc", exc), "var_attr": ("LLookup", "AttributeError"),
+                   "var_simple": ("LEval", exc)}[site]
+        return steps, leaf, e
+    steps = list(_DEPTH_STEPS[dep])
+    table = {
+        "field_call": (["STmplField"], "LFunc", exc),
+        "field_attr": (["STmplField"], "LLookup", "AttributeError"),
+        "field_arg": (["STmplField", "SCallArg"], "LFunc", exc),
+        "field_simple": (["STmplField"], "LEval", exc),
+        "count_call": (["(STmplCount false)"], "LFunc", exc),
+        "count_attr": (["(STmplCount false)"], "LLookup", "AttributeError"),
+        "count_simple": (["(STmplCount true)"], "LEval", exc),
+        "count_conv_simple": (["(STmplCount true)"], "LCountConv", "ValueError"),
+        "count_conv_struct": (["(STmplCount false)"], "LCountConv", "ValueError"),
+        "count_conv_inf": (["(STmplCount true)"], "LCountConv", "OverflowError"),
+        "foreach_call": (["STmplForEach"], "LFunc", exc),
+        "foreach_noniter": (["STmplForEach"], "LForEachType", "DGE"),
+        "write_row": ([], "LWrite", exc),
+    }
+    s, leaf, e = table[site]
+    return steps + s, leaf, e
+
+
+def _cexn(name):
+    return "EDGE" if name == "DGE" else f"(EPy {cs(name)})"
+
+
+def coq_case(case, obs):
+    if not isinstance(obs, dict) or obs.get("skip") or "outcome" not in obs:
+        return None
+    if case["kind"] == "fault":
+        steps, leaf, e = fault_path(case)
+        got = "DGE" if obs["outcome"] == "DGE" else obs["outcome"]
+        if got == "accept":
+            got = "NoException"
+        return f"CFault {C.clist(steps)} {leaf} {_cexn(e)} {_cexn(got)}"
+    exp = expected_static(obs)
+    if exp is None:
+        return None
+    text, base = materialise(case)
+    try:
+        py = yaml.safe_load(text)
+    except yaml.YAMLError as e:
+        return f"CText {_cloaderr(_load_err(e))} {exp}"
+    except RecursionError:
+        return None
+    except Exception as e:
+        return f"CText {_cloaderr(_load_err(e))} {exp}"
+    try:
+        tree = from_py(py)
+    except (Cyclic, RecursionError):
+        return None                      # an alias cycle is not a tree: outside the model's datatype
+    if any(_UWS.search(s) for s in _strings(tree)):
+        return None                      # str.strip() on non-ASCII whitespace is not modelled
+    env = obs.get("env")
+    if env is None:
+        return None
+    cenv = _cenv(env)
+    if cenv is None:
+        return None
+    return f"CDoc {cenv} {cy(tree)} {exp}"
+
+
+# =============================================================================== property oracle
+def oracle(case, obs):
+    if obs.get("skip"):
+        return None
+    out = obs["outcome"]
+    if case["kind"] == "fault":
+        if out not in ("accept", "DGE"):
+            return f"crash {out}@{obs.get('where')}: injected {case['exc']} at {case['site']}/{case['depth']} left generate as {out}"
+        return None
+    if out not in ("accept", "DGE"):
+        return (f"crash {out}@{obs.get('where')}: the document is answered with {out} ({obs.get('msg')}) "
+                f"in the {obs.get('phase')} phase after {obs.get('rows')} rows")
+    if out == "DGE" and not obs.get("msg_ok"):
+        return "message: rejected with a DataGenError that carries no message"
+    if obs.get("phase") == "static" and obs.get("rows", 0) > 0:
+        return f"rows: {obs['rows']} rows were written although the error was raised before execution started"
+    return None
+
+
+def violation_class(case, obs, msg):
+    return msg.split(":")[0]
+
+
+def nontrivial(case, obs):
+    if not isinstance(obs, dict) or "outcome" not in obs:
+        return False
+    return case["kind"] == "fault" or obs["outcome"] != "accept"
+
+
+def stats(cases, obss):
+    kinds = Counter(c["kind"] for c in cases)
+    outc = Counter()
+    crash = Counter()
+    dge = Counter()
+    ops = Counter()
+    lines = Counter()
+    rows_before_dge = Counter()
+    for c, o in zip(cases, obss):
+        if not isinstance(o, dict) or "outcome" not in o:
+            outc["hang" if isinstance(o, dict) and o.get("hang") else "n/a"] += 1
+            continue
+        out = o["outcome"]
+        outc[("accept" if out == "accept" else "reject" if out == "DGE" else "crash") + "/" + str(o.get("phase"))] += 1
+        if out == "DGE":
+            dge[o.get("dge")] += 1
+            lines["with line" if o.get("has_line") else "with file" if o.get("has_file") else "no location"] += 1
+            if o.get("phase") == "run":
+                rows_before_dge["0" if o["rows"] == 0 else ">0"] += 1
+        elif out != "accept":
+            crash[f"{out}@{o.get('where')}"] += 1
+        if c["kind"] == "edit" and c.get("edit"):
+            ops[c["edit"][1]] += 1
+    sd = seeds()
+    return {"kinds": dict(kinds), "outcome/phase": dict(outc), "crash_sites": dict(crash), "reject_classes": dict(dge),
+            "reject_location": dict(lines), "runtime_reject_rows_before": dict(rows_before_dge),
+            "edit_ops": dict(ops), "seeds": len(sd), "seed_nodes": sum(s["nodes"] for s in sd.values())}
+
+
+def shrink(case):
+    """first make the case self-contained (explicit tree), then drop list elements / map entries"""
+    if case["kind"] == "edit":
+        s = seeds().get(case["seed"])
+        if s is not None:
+            t = s["tree"] if case.get("edit") is None else apply_edit(s["tree"], case["edit"])
+            yield {"kind": "doc", "tree": t, "base": s["base"], "label": f"{case['seed']} {case.get('edit')}"}
+        return
+    if case["kind"] != "doc":
+        return
+    t = case["tree"]
+    for path, node in positions(t):
+        if node[0] in "lm" and node[1]:
+            for i in range(len(node[1])):
+                yield dict(case, tree=apply_edit(t, [list(path), "del", i]))
+
+
+def directed_search(rng, disagreeing):
+    out = []
+    sd = seeds()
+    for n in [n for n in sd if n.startswith("b_")]:
+        ds = edit_descriptors(sd[n]["tree"])
+        out.extend({"kind": "edit", "seed": n, "edit": d} for d in rng.sample(ds, min(len(ds), 500)))
+    for site in FAULT_SITES:
+        for dep in FAULT_DEPTHS:
+            for exc in FAULT_EXCS:
+                if _fault_recipe(site, dep, exc) is not None and not (exc == "StopIteration" and site.endswith("_simple")):
+                    out.append({"kind": "fault", "site": site, "depth": dep, "exc": exc, "nth": 1})
+    return out
+
+
+# =============================================================================== known findings
+# id -> (exception signatures (type, file:function) | special, what, witness case)
+FINDINGS = {
+ "C20-S01-unmarked-yaml-error": {
+  "sigs": [("AttributeError", "parse_recipe_yaml.py:parse_file")],
+  "what": "recipe text that PyYAML rejects with an unmarked YAMLError (ReaderError: a control character such as \\x01 or NUL) crashes parse_file with AttributeError: 'ReaderError' object has no attribute 'problem_mark' (parse_recipe_yaml.py:730 reads y.problem_mark.line of every YAMLError)",
+  "case": {"kind": "text", "text": "- object: A\x01\n"}},
+ "C20-S02-pyyaml-non-yaml-error": {
+  "sigs": [("*", "parse_recipe_yaml.py:yaml_safe_load_with_line_numbers")],
+  "what": "values PyYAML resolves as timestamps but cannot construct (x: 2020-13-45, 2020-01-01 25:00:00) make yaml raise ValueError, which parse_file does not catch (only YAMLError): the recipe is answered with ValueError: month must be in 1..12",
+  "case": {"kind": "text", "text": "- object: A\n  fields:\n    x: 2020-13-45\n"}},
+ "K8": {
+  "sigs": [("RecursionError", "cyclic-alias")],
+  "what": "a self-referential YAML alias (fields: &f {x: *f}) is walked without end by parse_structured_value_args / parse_element: RecursionError instead of a recipe error",
+  "case": {"kind": "text", "text": "- object: A\n  fields: &f\n    x: *f\n"}},
+ "C20-S04-macro-friend-cycle": {
+  "sigs": [("RecursionError", "macro-cycle")],
+  "what": "a macro whose friend template includes the same macro is expanded without end: parse_object_template calls parse_inclusions with parent_macros reset to (), so include_macro's cycle check never sees the outer expansion (RecursionError instead of the `Macro a calls ... which calls a` error)",
+  "case": {"kind": "text", "text": "- macro: m\n  friends:\n    - object: B\n      include: m\n- object: A\n  include: m\n"}},
+ "C20-S05-include-file-cycle": {
+  "sigs": [("RecursionError", "file-cycle")],
+  "what": "a recipe file that includes itself (directly or through another file) is parsed without end: parse_included_file keeps no set of files being loaded (RecursionError)",
+  "case": {"kind": "files", "main": "main.yml", "files": {"main.yml": "- include_file: main.yml\n- object: A\n"}}},
+ "C20-S06-include-directory": {
+  "sigs": [("IsADirectoryError", "parse_recipe_yaml.py:parse_included_file")],
+  "what": "include_file naming a directory (`include_file: .`) passes the exists() test and fails in open() with IsADirectoryError",
+  "case": {"kind": "text", "text": "- include_file: .\n- object: A\n"}},
+ "C20-S07-unhashable-macro-name": {
+  "sigs": [("TypeError", "parse_recipe_yaml.py:parse_top_level_elements")],
+  "what": "a macro whose name is a list or mapping (`macro: [a]`) is used as a dict key before any type check: TypeError: unhashable type",
+  "case": {"kind": "text", "text": "- macro: [a]\n  fields: {a: b}\n- object: A\n"}},
+ "C20-S08-unhashable-option-name": {
+  "sigs": [("TypeError", "data_generator.py:merge_options")],
+  "what": "an option whose name is a list, mapping or set (`option: [1]`): option elements are never passed through parse_element and merge_options hashes the name: TypeError: unhashable type",
+  "case": {"kind": "text", "text": "- option: [1]\n  default: 3\n- object: A\n"}},
+ "C20-S09-plugin-name-without-dot": {
+  "sigs": [("ValueError", "plugins.py:resolve_plugin_alternatives")],
+  "what": "`plugin: foo` (no dot): `prefix, class_name = plugin.rsplit('.', 1)` raises ValueError: not enough values to unpack",
+  "case": {"kind": "text", "text": "- plugin: foo\n- object: A\n"}},
+ "C20-S10-plugin-import-error": {
+  "sigs": [("TypeError", "plugins.py:resolve_plugin_alternatives"), ("TypeError", "plugins.py:resolve_plugin"),
+           ("AssertionError", "plugins.py:resolve_plugin_alternatives")],
+  "what": "plugin names on which importlib raises something other than ModuleNotFoundError (`plugin: .x`: TypeError relative import) or which name a non-class attribute (`plugin: os.path`: issubclass() arg 1 must be a class) escape unwrapped",
+  "case": {"kind": "text", "text": "- plugin: os.path\n- object: A\n"}},
+ "C20-S11-version-nan": {
+  "sigs": [("IndexError", "parse_recipe_yaml.py:parse_version")],
+  "what": "`snowfakery_version: .nan`: nan != nan makes the single declaration mismatch itself and parse_version indexes version_declarations[1]: IndexError",
+  "case": {"kind": "text", "text": "- snowfakery_version: .nan\n- object: A\n"}},
+ "C20-S12-empty-field-name": {
+  "sigs": [("AssertionError", "parse_recipe_yaml.py:parse_field")],
+  "what": "a field whose name is the empty string (fields: {'': x}) fails `assert name, name` in parse_field",
+  "case": {"kind": "text", "text": "- object: A\n  fields:\n    '': x\n"}},
+ "C20-S13-friend-with-non-string-key": {
+  "sigs": [("AttributeError", "parse_recipe_yaml.py:parse_statement_list")],
+  "what": "a friends entry that is neither object nor var and has a non-string key (friends: [{5: v}]): the error path calls key.startswith('_') on it: AttributeError",
+  "case": {"kind": "text", "text": "- object: A\n  friends:\n    - 5: v\n"}},
+ "C20-S14-for-each-without-var": {
+  "sigs": [("AttributeError", "parse_recipe_yaml.py:parse_for_each_variable_definition")],
+  "what": "for_each without `var` (for_each: {value: ...}): parse_element does not require the element-type key, parsed_template.var does not exist: AttributeError: 'DictValuesAsAttrs' object has no attribute 'var'",
+  "case": {"kind": "text", "text": "- object: A\n  for_each:\n    value: x\n"}},
+ "C20-S15-random-reference-shape": {
+  "sigs": [("KeyError", "data_generator_runtime.py:get_referent_name"),
+           ("UnboundLocalError", "data_generator_runtime.py:get_referent_name"),
+           ("AttributeError", "data_generator_runtime.py:get_referent_name")],
+  "what": "random_reference with keyword arguments but no `to` (KeyError: 'to'), with an empty list / mapping (UnboundLocalError: ret), or whose first argument is a function call or nested object (AttributeError: no attribute 'definition'): get_referent_name assumes the shape",
+  "case": {"kind": "text", "text": "- object: A\n  fields:\n    x:\n      random_reference:\n        scope: y\n"}},
+ "C20-S16-version-option-override": {
+  "sigs": [("AssertionError", "data_generator_runtime.py:__init__")],
+  "what": "an `option` named snowfakery.standard_plugins.SnowfakeryVersion.snowfakery_version with a default other than 2 / 3 overwrites the plugin option and fails `assert snowfakery_version in (2, 3)` in Interpreter.__init__",
+  "case": {"kind": "text", "text": "- option: snowfakery.standard_plugins.SnowfakeryVersion.snowfakery_version\n  default: 7\n- object: A\n"}},
+ "C20-R1-count-not-simple-value": {
+  "sigs": [("AttributeError", "data_generator_runtime_object_model.py:_evaluate_count")],
+  "what": "a top-level template whose count is a function call or nested object that does not yield a number (count: {fake: Name}): the except clause of _evaluate_count formats self.count_expr.definition, which only SimpleValue has: AttributeError (below another template the same error is wrapped)",
+  "case": {"kind": "text", "text": "- object: A\n  count:\n    fake: Name\n"}},
+ "C20-R2-count-infinite": {
+  "sigs": [("OverflowError", "data_generator_runtime_object_model.py:_evaluate_count")],
+  "what": "a top-level template with count: inf (or 1e400, infinity): int(float('inf')) raises OverflowError, which is not in `except (ValueError, TypeError)` and _evaluate_count runs outside exception_handling",
+  "case": {"kind": "text", "text": "- object: A\n  count: inf\n"}},
+ "C20-R3-top-level-var-dot": {
+  "sigs": [("ValueError", "template_utils.py:look_for_number")],
+  "what": "a top-level `var` whose value is the string '.': look_for_number('.') calls float('.') after SimpleValue.render's try block, and VariableDefinition.execute has no handler: ValueError (inside a field the same error is wrapped)",
+  "case": {"kind": "text", "text": "- var: v\n  value: .\n- object: A\n"}},
+ "C20-R4-top-level-var-plugin-attribute": {
+  "sigs": [("AttributeError", "data_generator_runtime_object_model.py:render")],
+  "what": "a top-level `var` whose value calls a function a declared plugin does not have (Math.nosuch): StructuredValue.render re-raises AttributeError before its exception_handling block and VariableDefinition.execute has no handler",
+  "case": {"kind": "text", "text": "- plugin: snowfakery.standard_plugins.Math\n- var: v\n  value:\n    Math.nosuch: 1\n- object: A\n"}},
+ "C20-R5-invalid-locale": {
+  "sigs": [("AttributeError", "fake_data_generator.py:__init__")],
+  "what": "`var: snowfakery_locale` with a value Faker does not know (zz_ZZ): the Faker library is created in RuntimeContext.__init__ (child_context), outside every handler: AttributeError: Invalid configuration for faker locale",
+  "case": {"kind": "text", "text": "- var: snowfakery_locale\n  value: zz_ZZ\n- object: A\n  fields:\n    n:\n      fake: Name\n"}},
+ "C20-R6-schedule-interval-zero-hangs": {
+  "sigs": [("HANG", "schedule-interval")],
+  "what": "Schedule.Event with interval: 0 (or false) never returns: dateutil's rrule with interval 0 loops forever when the second value is asked for (the recipe hangs, no error)",
+  "case": {"kind": "text", "text": "- plugin: snowfakery.standard_plugins.Schedule\n- object: A\n  count: 3\n  fields:\n    d:\n      Schedule.Event:\n        start_date: 2023-01-01\n        freq: weekly\n        interval: 0\n"}},
+}
+
+
+def _walk_py(o):
+    yield o
+    if isinstance(o, dict):
+        for k, v in o.items():
+            yield from _walk_py(v)
+    elif isinstance(o, (list, tuple)):
+        for v in o:
+            yield from _walk_py(v)
+
+
+def _recursion_class(case, obs):
+    text, _ = materialise(case)
+    try:
+        py = yaml.safe_load(text)
+        from_py(py)
+    except Cyclic:
+        return "cyclic-alias"
+    except Exception:
+        return None
+    env = obs.get("env") or {}
+    files = env.get("files", [])
+    if any(f[2] == "bad:cyclic" for f in files):
+        return "cyclic-alias"
+    edges = {}
+    for f in files:
+        if f[2] == "doc":
+            edges.setdefault(f[0], set()).add(f[3])
+    seen, stack = set(), [""]
+    path_cycle = False
+
+    def dfs(n, anc):
+        nonlocal path_cycle
+        for m in edges.get(n, ()):
+            if m in anc:
+                path_cycle = True
+            elif m not in seen:
+                seen.add(m)
+                dfs(m, anc | {m})
+    dfs("", {""})
+    if path_cycle:
+        return "file-cycle"
+    has_macro = any(isinstance(o, dict) and o.get("macro") for o in (py if isinstance(py, list) else []))
+    for f in files:
+        if f[2] == "doc" and any(x[0] == "m" and any(k == ["s", "macro"] for k, _ in x[1])
+                                 for x in (f[4][1] if f[4][0] == "l" else [])):
+            has_macro = True
+    return "macro-cycle" if has_macro else None
+
+
+def _hang_class(case):
+    text, _ = materialise(case)
+    try:
+        py = yaml.safe_load(text)
+    except Exception:
+        return None
+    for o in _walk_py(py):
+        if isinstance(o, dict) and "Schedule.Event" in o:
+            a = o["Schedule.Event"]
+            if isinstance(a, dict) and "interval" in a and a["interval"] in (0, False) and a["interval"] is not None:
+                return "schedule-interval"
+    return None
+
+
+def match_finding(case, obs, msg, findings):
+    """the id of the open finding this failure belongs to, or None (a model disagreement never matches)"""
+    if msg == "model-disagreement" or not isinstance(obs, dict):
+        return None
+    open_ids = {f["id"] for f in findings}
+    if obs.get("hang"):
+        sig = ("HANG", _hang_class(case))
+    else:
+        out = obs.get("outcome")
+        if out in (None, "accept", "DGE") or not msg.startswith("crash "):
+            return None
+        where = obs.get("where")
+        if out == "RecursionError":
+            where = _recursion_class(case, obs)
+        sig = (out, where)
+    for fid, f in FINDINGS.items():
+        if fid not in open_ids:
+            continue
+        for t, w in f["sigs"]:
+            if w == sig[1] and (t == "*" or t == sig[0]):
+                return fid
+    return None
+
+
+def write_findings_corpus():
+    """(maintenance) corpus/C20/known_findings.json and the KNOWN_FINDINGS.json entries as text"""
+    cases = []
+    entries = []
+    for fid, f in FINDINGS.items():
+        c = dict(f["case"])
+        c["label"] = "finding:" + fid
+        cases.append(c)
+        entries.append({"id": fid, "property": "C20", "what": f["what"],
+                        "signature": "exception (type @ innermost snowfakery frame) in " +
+                                     ", ".join(f"{t}@{w}" for t, w in f["sigs"]) +
+                                     "; static sites only when the Coq model predicts the same crash for the document",
+                        "witness": "corpus/C20/known_findings.json (label finding:%s): %s" % (
+                            fid, json.dumps(f["case"].get("text", f["case"].get("files")))[:160])})
+    (C.CORPUS / "C20").mkdir(parents=True, exist_ok=True)
+    (C.CORPUS / "C20" / "known_findings.json").write_text(json.dumps({"cases": cases}, indent=1))
+    return entries
+
+
 # =============================================================================== seed list maintenance
 def build_seeds():
     """(maintenance, not part of a check run) try every recipe of /repo/examples and /repo/tests once and
@@ -971,3 +1499,5 @@ def build_seeds():
 if __name__ == "__main__":
     if sys.argv[1:] == ["build-seeds"]:
         build_seeds()
+    if sys.argv[1:] == ["findings"]:
+        print(json.dumps(write_findings_corpus(), indent=1))
